@@ -267,8 +267,18 @@ class C12(PropCheck):
         def disp(fn):
             return 0
 
-        for twin, impl in case["regs"]:
-            disp.register(twins[twin], (lambda v: (lambda fn: v))(impl))
+        class CallableImpl:
+            """A hook that is a callable object (a class-based hook, a functools.partial): not a function, method or builtin."""
+
+            def __init__(s, v):
+                s.v = v
+
+            def __call__(s, fn):
+                return s.v
+
+        for n, (twin, impl) in enumerate(case["regs"]):
+            hook = [(lambda v: (lambda fn: v))(impl), CallableImpl(impl), functools.partial(lambda v, fn: v, impl)][n % 3]
+            disp.register(twins[twin], hook)
         res = [disp(t) for t in twins]
         # oracle: latest registration for that identity, else default
         want = []
